@@ -137,6 +137,15 @@ class Unrepresentable(Exception):
     """the case is outside what the model's record can say (counted, not compared)"""
 
 
+def format_tb(t, val, tb):
+    """what `dump` puts into the traceback field; CPython's traceback module itself raises on some exceptions
+    (a SyntaxError whose detail tuple holds non-text `text` / non-int `lineno`): such a sender cannot dump at all"""
+    try:
+        return "".join(traceback.format_exception(t, val, tb))
+    except Exception as ex:  # noqa
+        raise Unrepresentable("traceback.format_exception raises %s on the sender" % type(ex).__name__)
+
+
 def extract_record(t, val, tb):
     """what Python shows `vinegar.dump`: returns (kind, hd_text, tb_text, args_text, reprs_text, dir_text, sendable_attrs)
     sendable_attrs = [(name, value-as-sent)] for the environment probe of the receiver's setattr"""
@@ -173,7 +182,7 @@ def extract_record(t, val, tb):
         else:
             entries.append("( %s I%d %s N )" % (S(n), 2 if callable(v) else 1, txt))
             sendable.append((n, v))
-    tbtext = "".join(traceback.format_exception(t, val, tb))
+    tbtext = format_tb(t, val, tb)
     return (kind, "( %s %s )" % (S(mod), S(name)), S(tbtext), "( " + "".join(a + " " for a in args) + ")",
             "( " + "".join(a + " " for a in reprs) + ")", "( " + "".join(e + " " for e in entries) + ")", sendable)
 
@@ -359,6 +368,21 @@ def cls_text(C, m, c):
     return "?%s.%s" % (getattr(C, "__module__", "?"), getattr(C, "__name__", "?"))
 
 
+_str_canon = {}
+
+
+def canon_cached(v):
+    """valtext.canon, remembering the (long, often repeated) texts such as tracebacks"""
+    if type(v) is str:
+        t = _str_canon.get(v)
+        if t is None:
+            if len(_str_canon) > 20000:
+                _str_canon.clear()
+            t = _str_canon[v] = valtext.canon(v)
+        return t
+    return valtext.canon(v)
+
+
 RAISE_TOUCHED = frozenset(["__traceback__", "__context__", "__cause__", "__suppress_context__"])   # set by `raise` itself
 
 
@@ -379,14 +403,55 @@ def obj_text(ex, m, c, slots, after_raise=False):
     attrs = []
     for n in sorted(names):
         try:
-            attrs.append("( %s %s ) " % (S(n), valtext.canon(getattr(ex, n))))
+            attrs.append("( %s %s ) " % (canon_cached(n), canon_cached(getattr(ex, n))))
         except Exception as e2:  # noqa
             attrs.append("( %s !%s ) " % (S(n), type(e2).__name__))
     return "%s %s ( %s)" % (ct, valtext.canon(tuple(ex.args)), "".join(attrs))
 
 
-def sort_model_obj(text, drop=frozenset()):
-    """re-canonicalise `<cls..> <args> <attrs>` printed by the driver: attrs sorted by name, frozensets sorted"""
+def _skip_value(toks, i):
+    """index after the value starting at toks[i]"""
+    depth = 0
+    while True:
+        t = toks[i]
+        if t in ("(", "{", "["):
+            depth += 1
+        elif t in (")", "}", "]"):
+            depth -= 1
+        i += 1
+        if depth == 0:
+            return i
+
+
+def _name_key(tok):
+    return tuple(int(x) for x in tok[1:].split(",")) if len(tok) > 1 else ()
+
+
+_DROP_TOKS = frozenset(valtext.to_text(n) for n in RAISE_TOUCHED)
+
+
+def sort_model_obj(text, drop=False):
+    """re-canonicalise `<cls..> <args> <attrs>` printed by the driver: attrs sorted by name (frozensets, if any, sorted
+    through the slow path); drop: leave out the slots a `raise` statement rewrites"""
+    toks = text.split(" ")
+    if "{" in toks:
+        return _sort_model_obj_slow(text, RAISE_TOUCHED if drop else frozenset())
+    i = _skip_value(toks, 1) + 1 if toks[0] == "R" else 2          # R <module value> <S class>  |  G <S name>
+    j = _skip_value(toks, i)                                        # args
+    head = " ".join(toks[:j])
+    assert toks[j] == "(" and toks[-1] == ")"
+    pairs, k = [], j + 1
+    while k < len(toks) - 1:
+        e = _skip_value(toks, k)
+        name = toks[k + 1]
+        if not (drop and name in _DROP_TOKS):
+            pairs.append((_name_key(name), " ".join(toks[k:e])))
+        k = e
+    pairs.sort()
+    return "%s ( %s)" % (head, "".join(p[1] + " " for p in pairs))
+
+
+def _sort_model_obj_slow(text, drop=frozenset()):
     toks = text.split()
     if toks[0] == "R":
         m, i = valtext._from(toks, 1)
@@ -408,19 +473,21 @@ def canon_model_line(line):
         return {"local": True}
     parts = line.split(" | ")
     if parts[0].startswith("pay "):
-        res["pay"] = valtext.canon(valtext.from_text(parts[0][4:]))
+        res["pay"] = parts[0][4:] if "{" not in parts[0] else valtext.canon(valtext.from_text(parts[0][4:]))
         parts = parts[1:]
     load, seen = parts
     toks = load.split(" ")
     assert toks[0] == "imp"
     k = toks.index("init")
-    res["imp"] = valtext.canon(valtext.from_text(" ".join(toks[1:k])))
+    res["imp"] = " ".join(toks[1:k])
+    if "{" in toks[1:k]:
+        res["imp"] = valtext.canon(valtext.from_text(res["imp"]))
     res["init"] = int(toks[k + 1])
     out = " ".join(toks[k + 3:])
     if out.startswith("exc "):
         out = "exc " + sort_model_obj(out[4:])
     elif out.startswith("str "):
-        out = "str " + valtext.canon(valtext.from_text(out[4:]))
+        out = "str " + out[4:]
     res["out"] = out
-    res["seen"] = "raised " + sort_model_obj(seen[7:], RAISE_TOUCHED) if seen.startswith("raised ") else seen
+    res["seen"] = "raised " + sort_model_obj(seen[7:], True) if seen.startswith("raised ") else seen
     return res
